@@ -155,6 +155,8 @@ class Emit:
             t = self.cfg.get("cast", {}).get(x[2])
             return t.format(self.atom(x[1])) if t else self.e(x[1])
         if k == "block":
+            if self.cfg.get("imperative") and x[2] is not None and any(st[0] == "expr" for st in x[1]):
+                return "(" + self.imp(list(x[1]), self.e(x[2])) + ")"
             return self.block(x)
         if k == "tuple":
             return "(" + ", ".join(self.e(y) for y in x[1]) + ")"
@@ -214,6 +216,8 @@ class Emit:
             b = x[1]
             if b[0] == "path" and "::".join(b[1]) in self.index:
                 return "(" + self.index["::".join(b[1])].format(self.atom(x[2])) + ")"
+            if self.cfg.get("matrix"):                       # `mean[4]`: entry of a column vector, by its storage index
+                return "(%s (NatIdx.ofNat %s) 0)" % (self.atom(b), self.atom(x[2]))
             if x[2][0] == "range" and x[2][2] is None:       # `&v[a..]`
                 return "(List.drop %s %s)" % (self.atom(x[2][1]), self.atom(b))
             if self.cfg.get("imperative"):
@@ -239,6 +243,8 @@ class Emit:
             name = x[1][-1]
             if name == "Self":
                 name = self.cfg.get("Self", name)
+            if self.cfg.get("struct", {}).get(name) == "tuple":
+                return "(" + ", ".join(self.e(fe) for fn, fe in x[2]) + ")"
             if name in self.cfg.get("struct", {}):
                 ty, fmap = self.cfg["struct"][name]
                 return "({ " + ", ".join("%s := %s" % (fmap[fn], self.e(fe)) for fn, fe in x[2]) + " } : " + ty + ")"
@@ -301,6 +307,20 @@ class Emit:
                 walk(s[1])
         return out
 
+    def mtype(self, ty):
+        """`SVector<f32, N>` / `SMatrix<f32, R, C>` as a Lean matrix type over the index types of the configuration"""
+        if not self.cfg.get("matrix"):
+            return None
+        m = re.fullmatch(r"S(Vector|Matrix)<f32,(\w+)(?:,(\w+))?>", ty.replace(" ", ""))
+        if not m:
+            return None
+        dims = self.cfg["dims"]
+        r = dims.get(m.group(2))
+        c = "(Fin 1)" if m.group(1) == "Vector" else dims.get(m.group(3))
+        if r is None or c is None:
+            raise Unsupported("matrix dimension in " + ty)
+        return "Matrix %s %s α" % (r, c)
+
     def foreach_target(self, x):
         """`V.iter_mut().for_each(<closure>)` where the closure is one of the reviewed element updates of the configuration
         (compared as syntax trees): (V, lean function) - anything else is not recognised (and then Unsupported)"""
@@ -330,8 +350,13 @@ class Emit:
         s, rest = stmts[0], stmts[1:]
         tailstr = lambda: self.imp(rest, result)
         if s[0] == "let":
-            return "let %s := %s;\n    %s" % (self.pat(s[1]), self.e(s[2]), tailstr())
+            ty = self.mtype(s[3]) if len(s) > 3 and s[3] else None
+            return "let %s%s := %s;\n    %s" % (self.pat(s[1]), " : " + ty if ty else "", self.e(s[2]), tailstr())
         x = s[1]
+        if x[0] == "assign" and x[1][0] == "index" and x[1][2][0] == "tuple" and len(x[1][2][1]) == 2 and self.cfg.get("matrix") \
+                and self.lhs_name(x[1][1]) is not None:                        # `m[(i, j)] = v`
+            v = self.lhs_name(x[1][1])
+            return "let %s := (setEntry %s %s %s %s);\n    %s" % (v, v, self.atom(x[1][2][1][0]), self.atom(x[1][2][1][1]), self.atom(x[2]), tailstr())
         if x[0] == "macro" and x[1] in ("assert", "debug_assert", "assert_eq"):
             return tailstr()
         if x[0] == "assign" and self.lhs_name(x[1]) is not None:
@@ -548,6 +573,43 @@ KERNELS = [
 NMS_METHOD = {"unwrap_or": "Option.getD {0} {1}", "iter": "{0}", "into_iter": "{0}", "collect": "{0}", "filter": "List.filter {1} {0}",
               "map": "List.map {1} {0}", "enumerate": "enumerateL {0}", "sorted_by": "List.mergeSort {0} (fun a b => ({1} a b) != Ordering.gt)",
               "partial_cmp": "cmpQ {0} {1}", "unwrap": "{0}", "contains": "List.contains {0} {1}", "area": "area {0}"}
+
+# ---- Kalman filters at matrix level (C07): nalgebra expressions as Mathlib matrices; state index = positions ⊕ velocities
+KF_METHOD = {"transpose": "Matrix.transpose {0}", "component_mul": "cmul {0} {1}", "into_iter": "{0}", "chain": "({0} ++ {1})", "unwrap": "{0}",
+             "unwrap_or": "Option.getD {0} {1}", "solve_lower_triangular": "solveLower {0} {1}", "cholesky": "cholL {0}", "l": "{0}", "sum": "msum {0}"}
+KF_CALL = {"SVector::from_iterator": "colOfList {0}", "SVector::from_vec": "colOfList {0}", "SMatrix::from_diagonal": "diagOf {0}", "SMatrix::identity": "1"}
+KF_FIELDPATH = {"self.motion_matrix": "motion_matrix", "self.update_matrix": "update_matrix", "state.mean": "state.1", "state.covariance": "state.2",
+                "projected_state.mean": "projected_state.1", "projected_state.covariance": "projected_state.2"}
+SOLVE = "(solveLower : {r c : Type} → [Fintype r] → [DecidableEq r] → Matrix r r α → Matrix r c α → Matrix r c α)"
+def kf(prefix, file, impl, n_const, meas_sig, std_args):
+    X1, X2 = "{X1}", "{X2}"
+    ST = "Matrix %s (Fin 1) α × Matrix %s %s α" % (X2, X2, X2)
+    base = dict(group="KalmanMat", file=file, impl=impl, imperative=True, matrix=True, dims_from=n_const, struct={"KalmanState": "tuple"},
+                call=KF_CALL, fieldpath=KF_FIELDPATH, path={"DT": "dt", n_const: "{N}"})
+    meth = dict(KF_METHOD, std_position=prefix + "_std_position wpos " + std_args, std_velocity=prefix + "_std_velocity wvel " + std_args,
+                project=prefix + "_project update_matrix wpos {1} {2}")
+    return [
+        dict(base, name=prefix + "_motion_matrix", fn="new", sig="(dt : α) : Matrix %s %s α" % (X2, X2), result="motion_matrix", method=meth,
+             pick=lambda st: [x for x in st if (x[0] == "let" and x[1] == ("pvar", "motion_matrix")) or (x[0] == "expr" and x[1][0] == "for")]),
+        dict(base, name=prefix + "_initiate", fn="initiate", sig="(wpos wvel : α) (%s) : %s" % (meas_sig, ST), method=meth),
+        dict(base, name=prefix + "_predict", fn="predict", sig="(motion_matrix : Matrix %s %s α) (wpos wvel : α) (state : %s) : %s" % (X2, X2, ST, ST), method=meth),
+        dict(base, name=prefix + "_project", fn="project", sig="(update_matrix : Matrix %s %s α) (wpos : α) (mean : Matrix %s (Fin 1) α) (covariance : Matrix %s %s α) : Matrix %s (Fin 1) α × Matrix %s %s α" % (X1, X2, X2, X2, X2, X1, X1, X1), method=meth),
+        dict(base, name=prefix + "_update", fn="update", sig=SOLVE + " (update_matrix : Matrix %s %s α) (wpos : α) (state : %s) (%s) : %s" % (X1, X2, ST, meas_sig, ST), method=meth),
+        dict(base, name=prefix + "_distance", fn="distance", sig=SOLVE + " (cholL : Matrix %s %s α → Matrix %s %s α) (update_matrix : Matrix %s %s α) (wpos : α) (state : %s) (%s) : α" % (X1, X1, X1, X1, X1, X2, ST, meas_sig), method=meth,
+             mutmethods={"sub_assign": "{0} - {1}"}),
+    ]
+KALMAN_MAT = kf("box", "utils/kalman/kalman_2d_box.rs", r"impl Universal2DBoxKalmanFilter \{", "DIM_2D_BOX", "measurement : UBox α", "{1} {2} {3}") + \
+             kf("point", "utils/kalman/kalman_2d_point.rs", r"impl Point2DKalmanFilter \{", "DIM_2D_POINT", "p : α × α", "{1} 0")
+for _c in KALMAN_MAT:
+    if _c["fn"] == "initiate" and _c["name"].startswith("box"):
+        _c["sig"] = _c["sig"].replace("measurement : UBox α", "bbox : UBox α")
+VEC_METHOD = {"iter": "{0}", "zip": "List.zip {0} {1}", "map": "List.map {1} {0}", "collect": "{0}"}
+KALMAN_VEC = [
+    dict(group="KalmanVec", name="vec_" + fn, file="utils/kalman/kalman_2d_point_vec.rs", impl=r"impl Vec2DKalmanFilter \{", fn=fn,
+         sig="{S P R : Type} (f_%s : %s) (%s) : List R" % (fn, fty, args), method=dict(VEC_METHOD, **{fn: "f_%s %s" % (fn, fargs)}), fieldpath={"self.f": "()"})
+    for fn, fty, args, fargs in [("initiate", "P → R", "points : List P", "{1}"), ("predict", "S → R", "state : List S", "{1}"),
+                                 ("update", "S → P → R", "state : List S) (points : List P", "{1} {2}"),
+                                 ("distance", "S → P → R", "state : List S) (points : List P", "{1} {2}")]]
 # decision kernels over Nat / Rat (no field structure needed)
 GAL_METHOD = {"feature": "featureOf {0}", "attr": "{0}", "as_ref": "{0}", "unwrap": "{0}", "visual_quality": "quality {0}",
                  "partial_cmp": "cmpQ {0} {1}", "len": "List.length {0}", "iter": "{0}", "filter": "List.filter {1} {0}", "count": "List.length {0}"}
@@ -642,6 +704,16 @@ def gen(repo, cfgs, header, footer):
             text = open(path).read()
             # drop test modules so that helper fns of the same name in tests are not picked up
             params, body = parse_fn(text, c["fn"], c.get("impl"), c.get("occurrence", 0))
+            if "dims_from" in c:                          # `pub const DIM: usize = N;`  and  `DIM_X2 = DIM * 2`
+                nm = c["dims_from"]
+                m1 = re.search(r"pub const %s: usize = (\d+);" % nm, text)
+                m2 = re.search(r"pub const %s_X2: usize = %s \* 2;" % (nm, nm), text)
+                if not (m1 and m2):
+                    raise Unsupported("dimension constants " + nm)
+                N = m1.group(1)
+                X1, X2 = "(Fin %s)" % N, "(Fin %s ⊕ Fin %s)" % (N, N)
+                c = dict(c, dims={nm: X1, nm + "_X2": X2, "1": "(Fin 1)"}, sig=c["sig"].replace("{X1}", X1).replace("{X2}", X2),
+                         path={k: v.replace("{N}", N) for k, v in c.get("path", {}).items()})
             if "pick" in c:                               # a slice of the body: the statements the configuration selects
                 sel = c["pick"](list(body[1]) + ([("expr", body[2])] if body[2] is not None and not (body[2][0] == "call" and body[2][1] == ("path", ["Ok"])) else []))
                 if not sel:
@@ -673,9 +745,30 @@ deriving DecidableEq, Repr
 /-- `HashMap::get` on the scene -> epoch table -/
 def lookupEpoch (m : List (Nat × Nat)) (k : Nat) : Option Nat := (m.find? (fun p => p.1 == k)).map (·.2)
 """
-PRELUDE_SWAP = """/-- `f32::partial_cmp(..).unwrap()` on comparable (non-NaN) values -/
+PRELUDE_MAT = """open Matrix
+/-- storage index of a matrix row / column: `Fin n` by value; the `2n`-dimensional state as positions (0..n-1) then velocities (n..2n-1) -/
+class NatIdx (ι : Type) where
+  toNat : ι → Nat
+  ofNat : Nat → ι
+instance {n : Nat} [NeZero n] : NatIdx (Fin n) := ⟨Fin.val, Fin.ofNat n⟩
+instance {n : Nat} [NeZero n] : NatIdx (Fin n ⊕ Fin n) :=
+  ⟨Sum.elim Fin.val (fun k => n + k.val), fun k => if k < n then Sum.inl (Fin.ofNat n k) else Sum.inr (Fin.ofNat n (k - n))⟩
+/-- `SVector::from_iterator` / `from_vec`: a column vector from its entries in storage order -/
+def colOfList {ι : Type} [NatIdx ι] (l : List α) : Matrix ι (Fin 1) α := fun i _ => l.getD (NatIdx.toNat i) 0
+/-- `m[(i, j)] = v` -/
+def setEntry {ι κ : Type} [NatIdx ι] [NatIdx κ] (m : Matrix ι κ α) (i j : Nat) (v : α) : Matrix ι κ α :=
+  fun a b => if NatIdx.toNat a = i ∧ NatIdx.toNat b = j then v else m a b
+/-- `component_mul` -/
+def cmul {ι κ : Type} (a b : Matrix ι κ α) : Matrix ι κ α := fun i j => a i j * b i j
+/-- `SMatrix::from_diagonal(&v)` -/
+def diagOf {ι : Type} [DecidableEq ι] (v : Matrix ι (Fin 1) α) : Matrix ι ι α := Matrix.diagonal (fun i => v i 0)
+/-- `.sum()` of all entries -/
+def msum {ι κ : Type} [Fintype ι] [Fintype κ] (a : Matrix ι κ α) : α := ∑ i, ∑ j, a i j
+"""
+PRELUDE_BASE = """/-- `f32::partial_cmp(..).unwrap()` on comparable (non-NaN) values -/
 def cmpQ (a b : Rat) : Ordering := if a < b then .lt else if b < a then .gt else .eq
-/-- `slice::swap(i, j)` (indices in range: the code pushes an element first) -/
+"""
+PRELUDE_SWAP = """/-- `slice::swap(i, j)` (indices in range: the code pushes an element first) -/
 def listSwap {α : Type} (l : List α) (i j : Nat) : List α :=
   match l[i]?, l[j]? with
   | some a, some b => (l.set i b).set j a
@@ -684,8 +777,6 @@ def listSwap {α : Type} (l : List α) (i j : Nat) : List α :=
 PRELUDE_NMS = """/-- `f32::MAX`, `f32::MIN` as exact rationals -/
 def F32_MAX : Rat := ((2 ^ 24 - 1 : Nat) : Rat) * ((2 ^ 104 : Nat) : Rat)
 def F32_MIN : Rat := -F32_MAX
-/-- `f32::partial_cmp(..).unwrap()` on comparable (non-NaN) values -/
-def cmpQ (a b : Rat) : Ordering := if a < b then .lt else if b < a then .gt else .eq
 /-- `Iterator::enumerate`: (index, item) -/
 def enumerateL {α : Type} (l : List α) : List (Nat × α) := l.zipIdx.map (fun p => (p.2, p.1))
 /-- what `nms` reads of a `Universal2DBox`: the two fields of the validity filter (everything else only through `intersection` / `area`) -/
@@ -726,10 +817,13 @@ def main():
     jobs = []
     for g in K_GROUPS:
         jobs.append(("K" + g + ".lean", [c for c in KERNELS if c["group"] == g], HEADER_K % K_IMPORTS.get(g, "") + K_PRELUDE.get(g, ""), "SimVerif.Gen.K"))
+    jobs.append(("KKalmanMat.lean", KALMAN_MAT, HEADER_K % "import SimVerif.Gen.KKalman\nimport Mathlib.Data.Matrix.Mul\nimport Mathlib.Data.Matrix.Diagonal\nimport Mathlib.Data.Fintype.Sum\n" + PRELUDE_MAT, "SimVerif.Gen.K"))
+    jobs.append(("KKalmanVec.lean", KALMAN_VEC, "/- GENERATED by translator/kernels.py from /repo/src on every run — do not edit. `Vec2DKalmanFilter`: the point filter applied element by element. -/\nnamespace SimVerif.Gen.K\n", "SimVerif.Gen.K"))
     jobs.append(("LEpoch.lean", [c for c in LOGIC if c["group"] == "Epoch"], HEADER_L + PRELUDE_EPOCH, "SimVerif.Gen.L"))
     jobs.append(("LConstr.lean", [c for c in LOGIC if c["group"] == "Constr"], HEADER_L + PRELUDE_DEDUP, "SimVerif.Gen.L"))
-    jobs.append(("LGallery.lean", [c for c in LOGIC if c["group"] == "Gallery"], HEADER_L + PRELUDE_SWAP, "SimVerif.Gen.L"))
-    jobs.append(("LNms.lean", [c for c in LOGIC if c["group"] == "Nms"], HEADER_L + PRELUDE_NMS, "SimVerif.Gen.L"))
+    jobs.append(("LBase.lean", [], HEADER_L + PRELUDE_BASE, "SimVerif.Gen.L"))
+    jobs.append(("LGallery.lean", [c for c in LOGIC if c["group"] == "Gallery"], "import SimVerif.Gen.LBase\n" + HEADER_L + PRELUDE_SWAP, "SimVerif.Gen.L"))
+    jobs.append(("LNms.lean", [c for c in LOGIC if c["group"] == "Nms"], "import SimVerif.Gen.LBase\n" + HEADER_L + PRELUDE_NMS, "SimVerif.Gen.L"))
     jobs.append(("LAttr.lean", [c for c in LOGIC if c["group"] == "Attr"], HEADER_L, "SimVerif.Gen.L"))
     jobs.append(("LCompat.lean", [c for c in LOGIC if c["group"] == "Compat"], "import SimVerif.Gen.LConstr\n" + HEADER_L, "SimVerif.Gen.L"))
     for fname, cfgs, hdr, ns in jobs:
